@@ -2387,9 +2387,11 @@ func (resp *Response) writeBodyStream(w *bufio.Writer, sendBody bool) (err error
 			}
 			if err == nil && sendBody {
 				err = writeBodyChunked(w, resp.bodyStream)
-			}
-			if err == nil {
-				err = resp.Header.writeTrailer(w)
+				if err == nil {
+					// The trailer section ends the chunked body: nothing of it
+					// must be written when the body is skipped (HEAD, 204, 304).
+					err = resp.Header.writeTrailer(w)
+				}
 			}
 		}
 	}
